@@ -2119,6 +2119,10 @@ class Circuit(Unitary, StateVectorMap, Collection[Operation]):
         region = self.straighten(region)[0]
         circuit = self.batch_pop(region.points)
 
+        # If the region's cycles disappeared with its operations, the
+        # gate is appended and may land in an earlier cycle.
+        appended = region.min_cycle >= self.num_cycles
+
         # Insert popped circuit as a CircuitGate
         self.insert_circuit(
             region.min_cycle,
@@ -2126,6 +2130,11 @@ class Circuit(Unitary, StateVectorMap, Collection[Operation]):
             sorted(list(region.keys())),
             True,
         )
+
+        if appended:
+            point = self.last_on(region.min_qudit)
+            assert point is not None
+            return point
 
         return CircuitPoint(region.min_cycle, region.min_qudit)
 
